@@ -95,11 +95,24 @@ func ruleSharedStateOnSuccess(c *eng.Ctx) {
 				return true
 			}
 			stack = append(stack, m)
-			as, ok := m.(*ast.AssignStmt)
-			if !ok {
+			// a write of a receiver field: an assignment, or an atomic store (recv.f.Store(v) / Swap /
+			// CompareAndSwap on a sync/atomic value)
+			var targets []ast.Expr
+			var as ast.Node
+			switch x := m.(type) {
+			case *ast.AssignStmt:
+				targets, as = x.Lhs, x
+			case *ast.CallExpr:
+				if fn, ok := x.Fun.(*ast.SelectorExpr); ok && (fn.Sel.Name == "Store" || fn.Sel.Name == "Swap" || fn.Sel.Name == "CompareAndSwap") {
+					if strings.HasPrefix(eng.TypeName(info.TypeOf(fn.X)), "sync/atomic.") {
+						targets, as = []ast.Expr{fn.X}, x
+					}
+				}
+			}
+			if as == nil {
 				return true
 			}
-			for _, l := range as.Lhs {
+			for _, l := range targets {
 				se, ok := ast.Unparen(l).(*ast.SelectorExpr)
 				if !ok || eng.ObjOf(info, se.X) != recv {
 					continue
